@@ -44,6 +44,11 @@ def run(ctx):
     dev = K.deviations(ctx, cov, kinds)
     # 1. the design (deviations cleared) + 3. conformance and clauses on the graphs of the model of the code as it is
     K.check_all(ctx, cov, items, dev, kinds, budget=BUDGET if q else None)
+    if not q:
+        # deeper programs (3 objects, 3 commits, all failure kinds, close/reopen, a second writer): seeded random behaviours
+        big = cd.consts(Obj=('a', 'b', 'c'), Edges='EdgesChain', MaxCommit=3, MaxOther=2, MaxAct=6, MaxTail=3,
+                        Ops=('add', 'load', 'close', 'own', 'rm', 'other', 'free'))
+        K.simulate(ctx, cov, 'three-objects', big, dev, kinds, num=4000, depth=90)
     return K.finish(ctx, cov, NEED, RULE, dev)
 
 
